@@ -70,18 +70,28 @@ def anchors():
             'Renderer.render': RR.Renderer.render, 'Filenames._newFilename': Filenames._newFilename}
 
 
-def gen_doc(r):
+POOLS = {'index [$id, sect$num(4)]': ['index', 'index', 'sect0001', 'sect0002', 'sect0003', 'index.html', 'sect0002.html', 'Index', 'dup:1', 'dup 1', 'dup_1'],
+         'index [$title(3), s$num]': ['index', 's1', 's2', 'dup:1', 'dup 1'],
+         '[$id-$num(2), f$num(3)]': ['f001', 'f002', 'f003', 'f001.html', 'dup:1', 'dup 1', 'dup_1', 'a-02', 'a-03'],
+         'a b c [x$num]': ['a', 'b', 'c', 'x1', 'x2'],
+         '$jobname-$num(3)': ['job-001', 'job-002', 'job'],
+         'all': ['all', 'all.html']}
+
+
+def gen_doc(r, template=None):
     return docs.gen(r, parts=r.random() < 0.3, labels=True, refs=r.random() < 0.5, depth=r.choice([1, 2, 2]), maxsec=r.choice([3, 6, 12]), counters=False,
-                    theorems=r.random() < 0.3, eqnarray=False, blocks=(1, 3), cls=r.choice(['article', 'book']))
+                    hostile_labels=r.choice([0, 0.4, 0.8]), hostile_pool=POOLS.get(template), theorems=r.random() < 0.3, eqnarray=False, blocks=(1, 3),
+                    cls=r.choice(['article', 'book']))
 
 
 def cases(seed, tier, shard, nshards):
     b = budget(tier)
     for i in common.sharded(b['n'], shard, nshards):
         r = common.rng_for(seed, PROP, i)
-        d = gen_doc(r)
+        template = r.choice(TEMPLATES)
+        d = gen_doc(r, template)
         setup_ = r.choice(SETUPS)
-        yield {'kind': 'split', 'src': docs.latex(d), 'truth': truth(d), 'level': r.choice([-10, -2, -1, 0, 1, 1, 2, 2, 3, 4, 6]), 'template': r.choice(TEMPLATES),
+        yield {'kind': 'split', 'src': docs.latex(d), 'truth': truth(d), 'level': r.choice([-10, -2, -1, 0, 1, 1, 2, 2, 3, 4, 6]), 'template': template,
                'bad': r.choice(BADCHARS), 'renderer': setup_[0], 'theme': setup_[1]}
     for i in common.sharded(b['n_det'], shard, nshards):
         r = common.rng_for(seed, PROP, i, 'det')
